@@ -14,11 +14,12 @@ CORRESPONDENCE  every recorded commit is classified (start of run, keep = sampli
              model's out-state (positions, velocities, time stamps of roots and leaves) is compared bit for bit with the
              recorded out-state.  The creators' leaf positions are recomputed bit for bit by `dipoleLeaves`/`waterLeaves`."""
 import math
-from harness import runs, runcommon
+from harness import runs, runcommon, actcorr, modecorr, translate
 from harness.drive import f2b
 
 ID = "C12"
-THEOREM_MODULES = ["JF.Props.C12", "JF.Props.C12Chain"]
+THEOREM_MODULES = ["JF.Props.C12", "JF.Props.C12Chain", "JF.Props.ModeDiscipline"]
+NEEDS_GEN = True
 COMPONENTS = ["comp2"]
 ASSUMPTIONS = [
     "theorems (JF.C12.run_rootConsistent, step_good, dipole/water_initial_good): exact (rational) reading of "
@@ -378,8 +379,20 @@ def run(ctx):
             ctx.count("trace-failed:" + str(t["end"])[:60])
         else:
             ctx.count("slow-run")
+    try:
+        tree = translate.Tree(ctx.root)
+    except Exception as e:
+        tree = None
+        ctx.disagree("mode.translator", {"error": repr(e)}, "readable tree", "exception")
     for tr in trs + slow:
         meta = tr["meta"]
+        if tree is not None and tr["legs"] and meta.get("levels") == 2 and (tr.get("job") or {}).get("kind") != "resumed":
+            # the mode discipline C12Chain needs, derived from the wiring (JF.Props.ModeDiscipline): every recorded commit is of a
+            # kind the map allows for its tagger, and the mode read off the activation flags is the observed one
+            try:
+                modecorr.check_trace(ctx, tr, actcorr.wiring_of_trace(ctx, tree, tr))
+            except Exception as e:
+                ctx.disagree("mode.check-trace", {"ini": meta.get("ini"), "job": tr.get("job")}, "evaluated", repr(e))
         if not tr["legs"]:
             ctx.fail("C12:run-does-not-start", {"ini": meta.get("ini"), "end": tr["end"], "job": tr.get("job"),
                                                 "exception": (tr.get("exception") or "")[-1500:]},
